@@ -258,6 +258,7 @@ type handFileOpts struct {
 	NoFileSize  bool // interior nodes omit filesize
 	V0          bool
 	LeafType    pb.Data_DataType
+	InteriorRaw bool // interior nodes carry UnixFS type Raw instead of File (legal: read as files)
 }
 
 // handFile builds a balanced file DAG over chunks by hand.
@@ -298,6 +299,9 @@ func handFile(st *store.Store, chunks [][]byte, o handFileOpts) (cid.Cid, uint64
 				j = len(level)
 			}
 			t := pb.Data_File
+			if o.InteriorRaw {
+				t = pb.Data_Raw
+			}
 			m := &pb.Data{Type: &t}
 			var links []pbLinkSpec
 			var total, ts uint64
@@ -369,6 +373,9 @@ func handName(o handFileOpts) string {
 	}
 	if o.V0 {
 		s += "-v0"
+	}
+	if o.InteriorRaw {
+		s += "-rawinterior"
 	}
 	return s
 }
